@@ -33,6 +33,10 @@ Proof.
   destruct n; auto. simpl firstn at 1 2. f_equal. apply IH. simpl in *. lia.
 Qed.
 
+(* target holds keys 1 (other value), 2 and 0 in another order; the source holds 0 and 1 *)
+Definition c11_ex_lru_asg_ops : list (c11_lru_op nat) :=
+  [LruInsert _ 0 5; LruInsert _ 1 6; LruAssignOnto _ [(1, 60); (2, 70); (0, 50); (1, 61)]; LruTouch _ 2; LruInsert _ 2 8; LruPopBack _; LruTouch _ 0].
+
 Section LRUP.
   Variable V : Type.
   Notation node := (nat * (nat * V))%type.
@@ -266,6 +270,54 @@ Section LRUP.
     - intros e [].
   Qed.
 
+  (* ---- copy assignment onto a target that already holds entries (rebuildIndex) *)
+  Lemma find_insert k' k i (m : list (nat * nat)) :
+    c11_map_find k' (c11_map_insert k i m) =
+    if k' =? k then match c11_map_find k m with Some x => Some x | None => Some i end else c11_map_find k' m.
+  Proof.
+    unfold c11_map_insert. destruct (c11_map_find k m) as [x |] eqn:E.
+    - destruct (k' =? k) eqn:Ek; auto. apply Nat.eqb_eq in Ek. subst. exact E.
+    - simpl. rewrite (Nat.eqb_sym k k'). destruct (k' =? k) eqn:Ek; auto.
+  Qed.
+
+  Lemma rebuild_spec : forall (dl : list node) m k id,
+    NoDup (map keyof dl) -> (forall e, In e dl -> c11_map_find (keyof e) m = None) ->
+    (c11_map_find k (c11_lru_rebuild_loop V dl m) = Some id <-> c11_map_find k m = Some id \/ exists v, In (id, (k, v)) dl).
+  Proof.
+    induction dl as [| [i0 [k0 v0]] r IH]; intros m k id Hnd Hm; simpl.
+    - split; [auto | intros [H | [v []]]; auto].
+    - inversion Hnd as [| ? ? Hnin Hnd']; subst.
+      assert (Hk0 : c11_map_find k0 m = None) by (apply (Hm (i0, (k0, v0))); left; reflexivity).
+      rewrite IH; auto.
+      + rewrite find_insert, Hk0. destruct (k =? k0) eqn:Ek.
+        * apply Nat.eqb_eq in Ek. subst k0. split.
+          -- intros [H | [v Hin]]; [injection H as <-; right; exists v0; left; reflexivity | right; exists v; right; exact Hin].
+          -- intros [H | [v [H | Hin]]]; [rewrite Hk0 in H; discriminate | inversion H; subst; left; reflexivity | right; exists v; exact Hin].
+        * apply Nat.eqb_neq in Ek. split.
+          -- intros [H | [v Hin]]; [left; exact H | right; exists v; right; exact Hin].
+          -- intros [H | [v [H | Hin]]]; [left; exact H | inversion H; subst; congruence | right; exists v; exact Hin].
+      + intros e He. rewrite find_insert. destruct (keyof e =? k0) eqn:Ek.
+        * apply Nat.eqb_eq in Ek. exfalso. apply Hnin. change (keyof (i0, (k0, v0))) with k0. rewrite <- Ek. apply (in_map keyof). exact He.
+        * apply Hm. right. exact He.
+  Qed.
+
+  (* for EVERY target state t (no invariant assumed of it): after t = s the target shows what s shows *)
+  Lemma assign_ok t s l : Iv s l -> Iv (c11_lru_assign V t s) l.
+  Proof.
+    intros (Ha & Hid & Hk & Hix & Hn). unfold Iv, c11_lru_assign; cbn [lru_data lru_index lru_next].
+    split; [exact Ha | split; [exact Hid | split; [exact Hk | split]]].
+    - intros k id. unfold c11_map_clear. rewrite rebuild_spec; auto.
+      split; [intros [H | H]; [discriminate | exact H] | intros H; right; exact H].
+    - intros e He. specialize (Hn e He). lia.
+  Qed.
+
+  Lemma fill_ok : forall pre s l, Iv s l -> exists s' l', c11_lru_fill V true s pre = C11_ok s' /\ Iv s' l'.
+  Proof.
+    induction pre as [| [k v] r IH]; intros s l HI; simpl.
+    - exists s, l. split; auto.
+    - destruct (insert_ok s l k v HI) as (s' & Hi & HI' & _). rewrite Hi. simpl. eapply IH; eauto.
+  Qed.
+
   Lemma empty_ok : Iv (c11_lru_empty V) [].
   Proof.
     unfold Iv, c11_lru_empty; cbn [lru_data lru_index lru_next]. simpl.
@@ -283,7 +335,7 @@ Section LRUP.
     exists w', c11_lru_step V true w o = C11_ok w' /\ Rl w' ws'.
   Proof.
     intros [s r] [l rs] o ws' [HI Hr] Hs. cbn [fst snd] in *.
-    destruct o as [k v | k | | | n | |]; cbn [c11_lrus_step c11_lru_step fst snd] in *.
+    destruct o as [k v | k | | | n | | | pre]; cbn [c11_lrus_step c11_lru_step fst snd] in *.
     - injection Hs as <-. destruct (insert_ok s l k v HI) as (s' & Hi & HI' & Hfr). rewrite Hi. simpl. rewrite Hfr. simpl.
       eexists; split; [reflexivity |]. split; auto.
     - pose proof (touch_ok s l k HI) as Ht. destruct (c11_assoc V k l) as [v |].
@@ -297,6 +349,8 @@ Section LRUP.
       destruct (resize_ok s l n HI E) as (s' & Hp & HI'). rewrite Hp. simpl. eexists; split; [reflexivity |]. split; auto.
     - injection Hs as <-. eexists; split; [reflexivity |]. split; auto. simpl. eapply clear_ok; eauto.
     - injection Hs as <-. eexists; split; [reflexivity |]. split; auto.
+    - injection Hs as <-. destruct (fill_ok pre (c11_lru_empty V) [] empty_ok) as (t & l' & Hf & _). rewrite Hf. simpl.
+      eexists; split; [reflexivity |]. split; auto. simpl. apply assign_ok; auto.
   Qed.
 
   Lemma finds_ok s l : Iv s l -> forall ks,
@@ -330,5 +384,19 @@ Section LRUP.
     intros nkeys ops tr. unfold c11_lrus_run, c11_lru_run.
     apply (c11_sim_run _ _ _ _ _ _ _ _ Rl lru_step_sim (lru_observe_sim nkeys)).
     split; auto. apply empty_ok.
+  Qed.
+
+  (* PRE-EXISTING STATE OF THE TARGET: in every reachable state of the source, copy assignment onto ANY target state t (arbitrary
+     data, index and node counter - not even the invariant is assumed of t) yields a cache showing exactly the source's observation *)
+  Theorem c11_lru_assign_onto_any_target_lemma : forall nkeys ops ws (t : c11_lru V),
+    c11_spec_exec (c11_lrus_step V) ([], LruVoid V) ops = Some ws ->
+    exists w, c11_exec (c11_lru_step V true) (c11_lru_empty V, LruVoid V) ops = C11_ok w /\
+      c11_lru_observe V nkeys (c11_lru_assign V t (fst w), LruVoid V) = C11_ok (c11_lrus_observe V nkeys (fst ws, LruVoid V)).
+  Proof.
+    intros nkeys ops ws t Hs.
+    destruct (c11_sim_exec _ _ _ _ _ Rl lru_step_sim ops (c11_lru_empty V, LruVoid V) ([], LruVoid V) ws) as (w & Hw & HR); auto.
+    { split; auto. apply empty_ok. }
+    exists w. split; auto. destruct w as [s r], ws as [l rs]. destruct HR as [HI _]. cbn [fst snd] in *.
+    apply lru_observe_sim. split; auto. cbn [fst]. apply assign_ok. exact HI.
   Qed.
 End LRUP.
